@@ -22,8 +22,31 @@ func main() {
 	out := flag.String("out", "", "evidence file (default <verif>/evidence/<prop>.json)")
 	verbose := flag.Bool("v", false, "print every obligation")
 	only := flag.String("only", "", "print only obligations whose key contains this string")
+	genRef := flag.Bool("gen-funcref", false, "print the function reference table for core/funcref.json (tooling)")
 	dumpPF := flag.Bool("dump-pf1", false, "print every PF1 site as func|kind|raw|normalised (tooling)")
 	flag.Parse()
+	if *genRef {
+		p, err := core.Load(*repo, "", "")
+		if err != nil {
+			panic(err)
+		}
+		all := p.GenFuncRefs()
+		pw, _ := core.Load(*repo, "windows", "")
+		have := map[string]bool{}
+		for _, r := range all {
+			have[r.Name] = true
+		}
+		if pw != nil {
+			for _, r := range pw.GenFuncRefs() {
+				if !have[r.Name] {
+					all = append(all, r)
+				}
+			}
+		}
+		b, _ := json.MarshalIndent(all, "", " ")
+		fmt.Println(string(b))
+		return
+	}
 	if *dumpPF {
 		p, err := core.Load(*repo, os.Getenv("SA_GOOS"), "")
 		if err != nil {
